@@ -190,13 +190,15 @@ def chainTypes (src : QRec) : List Node → Option (List NodeReport)
 if is_inference:
   weights = qtools_util.get_weights(layer, model_weights_already_quantized)
   if weight_quantizer.is_po2: weight_quantizer.update_inference_values(weights[0])
-  if bias_quantizer.is_po2:   bias_quantizer.update_inference_values(weights[1])
+  if layer.use_bias and bias_quantizer.is_po2: bias_quantizer.update_inference_values(weights[1])
 ```
 `update_inference_values` exists on `PowerOfTwo` only (inherited by `ReluPowerOfTwo`) and writes
 `inference_value_counts = len(set(weights.flatten()))` — none of the fields the type rules read
 (`bits`, `int_bits`, `is_signed`, `max_val_po2`) changes.  The block runs BEFORE
-`if not layer.use_bias: bias_quantizer = None`, so the record made from `get_quantizers()[1]`
-is consulted even for a layer without a bias weight, and `weights[1]` is then out of range. -/
+`if not layer.use_bias: bias_quantizer = None`; until the repair of C18-inference-unused-po2-bias
+its second test was `if bias_quantizer.is_po2:`, so the record made from `get_quantizers()[1]`
+was consulted even for a layer without a bias weight and `weights[1]` was then out of range
+(IndexError).  Now `layer.use_bias` is consulted first: the unused record is never read. -/
 
 /-- the distinct entries of a list of constants, first occurrence of each value from the right
     (`set(weights.flatten())`; `0.0 == -0.0` are one element there and one rational here) -/
@@ -213,7 +215,9 @@ def updateInferenceValues (q : QRec) (ws : List Rat) : QRec × Int := (q, infere
 
 /-- the constants of one layer as `get_weights` hands them over, and — for a layer built with
     `use_bias=False` — the record made from the (unused) `get_quantizers()[1]`
-    (`None` ↦ the default intermediate quantizer, which is not po2) -/
+    (`None` ↦ the default intermediate quantizer, which is not po2).  The block no longer reads
+    `unusedBias`; the field (and `InfOutcome.indexError`) stay so that the harness keeps sending
+    the unused record and the theorems can say it is irrelevant -/
 structure InfConsts where
   wv : List Rat
   bv : List Rat
@@ -239,11 +243,7 @@ def inferenceBlock (w : QRec) (b : Option QRec) (c : InfConsts) : InfOutcome Inf
   | some bq =>
     let bu : QRec × Int := if bq.isPo2 then updateInferenceValues bq c.bv else (bq, -1)
     .ok { w := wu.1, wCounts := wu.2, b := some bu.1, bCounts := bu.2 }
-  | none =>
-    match c.unusedBias with
-    | some u => if u.isPo2 then .indexError          -- `weights[1]` of a one-element list
-                else .ok { w := wu.1, wCounts := wu.2, b := none, bCounts := -1 }
-    | none => .ok { w := wu.1, wCounts := wu.2, b := none, bCounts := -1 }
+  | none => .ok { w := wu.1, wCounts := wu.2, b := none, bCounts := -1 }
 
 /-- one node on the inference route: the node the type rules see, and the two counts -/
 def inferNode : Node → InfConsts → InfOutcome (Node × Int × Int)
